@@ -318,3 +318,39 @@ Proof.
   - apply regen_file_evolution; assumption.
   - intros k. destruct (memk String.eqb k (pair_keys kof its)); auto.
 Qed.
+
+(* ---------------------------------------------------------------- C02: chains of models *)
+Fixpoint chain (path : string) (d : string) (ms : list (list string)) : string :=
+  match ms with
+  | [] => d
+  | f :: r => chain path (fst (regen_file path f d)) r
+  end.
+
+(* the model whose output is on disk at the end and the blocks it holds: a block survives iff its tag name was
+   emitted by EVERY intermediate model (once gone it is not restored when the tag reappears) *)
+Fixpoint chain_end (its : list (item string)) (u : string -> list string) (ms : list (list string))
+  : list (item string) * (string -> list string) :=
+  match ms with
+  | [] => (its, u)
+  | f :: r => chain_end (items_of f) (fun k => if memk String.eqb k (pair_keys kof its) then u k else []) r
+  end.
+
+Lemma wfb_fresh_items its : wfb its = true -> Forall (wf_fresh_item kof kpfx) its.
+Proof.
+  intros H. apply wfb_wf in H as [H _]. eapply Forall_impl; [|exact H].
+  intros it Hit. destruct it as [l|o c]; simpl in *; tauto.
+Qed.
+
+Theorem chain_evolution path ms : forall its (u : string -> list string),
+  wfb its = true -> items_okb its = true -> (forall k, block_ok (u k) = true) ->
+  Forall (fun f => wf_fresh_file f = true) ms ->
+  chain path (on_disk u its) ms = on_disk (snd (chain_end its u ms)) (fst (chain_end its u ms)).
+Proof.
+  induction ms as [|f r IH]; intros its u Hwf Hok Hu Hms; [reflexivity|].
+  inversion Hms as [|? ? Hf Hr]; subst.
+  destruct (wf_fresh_file_inv f Hf) as (Hok' & Hp' & Hwf').
+  cbn [chain chain_end].
+  rewrite (regen_file_evolution path u its f (items_of f) Hwf Hok Hu Hp' (wfb_fresh_items _ Hwf')).
+  apply IH; try assumption.
+  intros k. destruct (memk String.eqb k (pair_keys kof its)); [apply Hu|reflexivity].
+Qed.
